@@ -151,6 +151,13 @@ func (x *Exec) callUnknown(s *State, evName, specName string, recv *Val, fv *Val
 		x.bindCall(evName, res)
 		return res
 	}
+	if isAssumedContract(x.P, specName) {
+		ref := "its implementations in the repository are proved to refine it where a refines clause exists (DESIGN 0.7); other implementations are assumed to"
+		if strings.Contains(specName, ":") || !strings.Contains(specName, "core.") {
+			ref = "a valid configuration is assumed to satisfy it; the defaults installed by the constructors are proved against it (implements)"
+		}
+		x.note("assumed contract applied at a dynamic call: " + specName + " (" + ref + ")")
+	}
 	vars := map[string]Val{}
 	if recv != nil {
 		vars["this"] = *recv
